@@ -1,5 +1,6 @@
 import Drv.Common
 import VrpModel.C11
+import VrpModel.C11Init
 import VrpModel.Generated.C11Schema
 open Lean Drv
 
@@ -86,9 +87,140 @@ def part1 (j : Lean.Json) (k : String) : R (List (String × Lean.Json)) := do
       pure [("expectation_met", .bool met), ("idempotent", .bool implIdem)]
   return [("model", model), ("oracle", Lean.Json.mkObj oracle)]
 
+
+/-! ## part 2: initial-solution round trip -/
+section Init
+open C11.Init
+
+def parseSpans (tws : List Lean.Json) : R (List Span) := do
+  if tws.isEmpty then pure [{ offset := false, s := 0, e := tmax }]
+  else tws.mapM (fun tw => do
+    let a ← asArr tw
+    if a.size != 2 then throw "bad window"
+    pure { offset := false, s := (← asInt a[0]!), e := (← asInt a[1]!) })
+
+def parsePlace (j : Lean.Json) : R Place := do
+  pure { loc := some (← natF j "loc"), dur := (← intF j "dur"), spans := (← parseSpans (← arrF j "tws")),
+         tag := (← optF asStr j "tag") }
+
+/-- the job index the pragmatic reader builds for a pragen problem: customer jobs (singles in the order
+    pickups, deliveries, replacements, services) and the vehicle-bound break / reload jobs -/
+def parseProblem (sp : Lean.Json) : R Problem := do
+  let jobs ← arrF sp "jobs"
+  let cust ← jobs.mapM (fun j => do
+    let tasks ← arrF j "tasks"
+    let singles ← ["pickup", "delivery", "replacement", "service"].flatMapM (fun kind => do
+      let ts ← tasks.filterM (fun t => do pure ((← strF t "kind") == kind))
+      ts.mapM (fun t => do pure ({ places := (← (← arrF t "places").mapM parsePlace) } : Single)))
+    pure ({ id := (← strF j "id"), singles := singles, bound := false } : JobDef))
+  let vehicles ← arrF sp "vehicles"
+  let bound ← vehicles.flatMapM (fun v => do
+    let ids ← listF asStr v "ids"
+    let shifts ← arrF v "shifts"
+    (shifts.zipIdx).flatMapM (fun (sh, si) => do
+      let breaks ← arrF sh "breaks"
+      let reloads ← arrF sh "reloads"
+      let bjobs ← (breaks.zipIdx).flatMapM (fun (b, bi) => do
+        let off ← boolF b "offset"
+        let tm ← asArr (← fld b "time")
+        let span : Span := { offset := off, s := (← asInt tm[0]!), e := (← asInt tm[1]!) }
+        let places ← (← arrF b "places").mapM (fun p => do
+          pure ({ loc := (← optF asNat p "loc"), dur := (← intF p "dur"), spans := [span], tag := (← optF asStr p "tag") } : Place))
+        pure (ids.map (fun vid => ({ id := s!"{vid}_break_{si}_{bi+1}", singles := [{ places := places }], bound := true } : JobDef))))
+      let rjobs ← (reloads.zipIdx).flatMapM (fun (r, ri) => do
+        let pl ← parsePlace r
+        pure (ids.map (fun vid => ({ id := s!"{vid}_reload_{si}_{ri+1}", singles := [{ places := [pl] }], bound := true } : JobDef))))
+      pure (bjobs ++ rjobs)))
+  pure { jobs := cust ++ bound }
+
+def parseAct (j : Lean.Json) : R Act := do
+  pure { job := (← strF j "job"), kind := (← strF j "kind"), task := (← natF j "task"), place := (← natF j "place"),
+         loc := (← natF j "loc"), arr := (← intF j "arr"), dep := (← intF j "dep"), tws := (← intF j "tws"),
+         dur := (← intF j "dur") }
+
+def parseTour (j : Lean.Json) : R Tour := do
+  pure { vehicle := (← strF j "vehicle"), shift := (← natF j "shift"), acts := (← listF parseAct j "acts") }
+
+def parseRTour (j : Lean.Json) : R RTour := do
+  pure { vehicle := (← strF j "vehicle"), shift := (← natF j "shift"),
+         acts := (← listF (fun a => do
+           pure ({ job := (← strF a "job"), task := (← natF a "task"), place := (← natF a "place"), loc := (← natF a "loc") } : RAct)) j "acts") }
+
+def jWAct (w : WAct) : Lean.Json := Lean.Json.mkObj [
+  ("jobId", .str w.jobId), ("type", .str w.kind), ("loc", jOpt jNat w.loc),
+  ("time", jOpt (fun p => Lean.Json.arr #[jInt p.1, jInt p.2]) w.time), ("tag", jOpt Lean.Json.str w.tag)]
+
+def jWTour (t : WTour) : Lean.Json := Lean.Json.mkObj [
+  ("vehicle", .str t.vehicle), ("shift", jNat t.shift),
+  ("stops", jList (fun s => Lean.Json.mkObj [("loc", jNat s.loc), ("arrival", jInt s.arrival),
+      ("departure", jInt s.departure), ("acts", jList jWAct s.acts)]) t.stops)]
+
+def jRTour (t : RTour) : Lean.Json := Lean.Json.mkObj [
+  ("vehicle", .str t.vehicle), ("shift", jNat t.shift),
+  ("acts", jList (fun a => Lean.Json.mkObj [("job", .str a.job), ("task", jNat a.task), ("place", jNat a.place),
+      ("loc", jNat a.loc)]) t.acts)]
+
+def sortStrs (l : List String) : List String := l.mergeSort (fun a b => decide (a ≤ b))
+
+def errName : RErr → String
+  | .unknownJob => "unknownJob" | .multiTags => "multiTags" | .cannotMatchJob => "cannotMatchJob"
+  | .cannotMatchBound => "cannotMatchBound" | .unknownType => "unknownType" | .doubleAssignment => "doubleAssignment"
+  | .unknownUnassigned => "unknownUnassigned" | .emptyTour => "emptyTour"
+
+/-- hypotheses of `init_roundtrip_partial`, evaluated on this problem and trace -/
+def initHyp (P : Problem) (tours : List Tour) : Bool :=
+  let cust := P.jobs.filter (fun j => !j.bound)
+  cust.all placesDistinguishable &&
+  cust.all (fun jd => jd.singles.length ≤ 1 || multiTagsOk jd) &&
+  traceOk P tours
+
+def part2 (j : Lean.Json) : R (List (String × Lean.Json)) := do
+  let impl ← fld j "impl"
+  match j.getObjVal? "sp", impl.getObjVal? "trace" with
+  | .ok sp, .ok tr =>
+    let P ← parseProblem sp
+    let tours ← listF parseTour tr "tours"
+    let unassigned ← listF asStr tr "unassigned"
+    let wtours := tours.map (writeTour P)
+    let wun := writeUnassigned P unassigned
+    let rr := readInit P wtours wun
+    let rrJ := match rr with
+      | .ok r => Lean.Json.mkObj [("ok", Lean.Json.mkObj [("tours", jList jRTour r.tours),
+          ("unassigned", jList Lean.Json.str (sortStrs (customerIds P r.unassigned))),
+          ("unused_bound", jList Lean.Json.str (sortStrs (r.unassigned.filter (fun id => !(customerIds P [id]).contains id))))])]
+      | .error e => Lean.Json.mkObj [("err", .str (errName e))]
+    let model := Lean.Json.mkObj [
+      ("written", Lean.Json.mkObj [("tours", jList jWTour wtours), ("unassigned", jList Lean.Json.str wun)]),
+      ("init_read_ok", .bool (match rr with | .ok _ => true | .error _ => false)),
+      ("reread", rrJ)]
+    -- the property, evaluated on what the REAL reader returned, under the theorem's hypotheses
+    let hyp := initHyp P tours
+    let implOk := (fldD impl "init_read_ok" (.bool false)) == .bool true
+    let implRe := fldD (fldD impl "reread" .null) "ok" .null
+    let (actsOk, unOk) ← if implOk then do
+        let rts ← listF parseRTour implRe "tours"
+        let un ← listF asStr implRe "unassigned"
+        pure (sameCustomerActs P tours rts, sameSet (customerIds P unassigned) un)
+      else pure (false, false)
+    let oracle := Lean.Json.mkObj [
+      ("init_read_ok", .bool (!hyp || implOk)),
+      ("same_customer_activities_with_places", .bool (!hyp || actsOk)),
+      ("same_unassigned_customers", .bool (!hyp || unOk))]
+    return [("model", model), ("oracle", oracle), ("hyp", .bool hyp)]
+  | _, _ =>
+    -- raw pragmatic problem (required breaks) or a run without trace (invalid problem, inexact times):
+    -- outside the model; the property's first clause is still evaluated on the real output
+    let hasTrace := (impl.getObjVal? "trace").toOption.isSome
+    let implOk := (fldD impl "init_read_ok" (.bool false)) == .bool true
+    return [("model", .null), ("oracle", Lean.Json.mkObj (if hasTrace then [("init_read_ok", .bool implOk)] else [])),
+            ("hyp", .bool false)]
+
+end Init
+
 def handle (j : Lean.Json) : R (List (String × Lean.Json)) := do
   let k ← strF j "k"
   if k == "rt" || k == "foreign" || k == "fbits" then part1 j k
+  else if k == "init" then part2 j
   else throw s!"unknown case kind {k}"
 
 end Drv.C11
